@@ -17,9 +17,9 @@ props = {
  "C13": ("caller-buffer actor: spare capacity (sentinel/zero/0xFF filled), exactly-full slices, scanner-style reuse, scribble after return, overwrite between obtaining and ranging a sequence; byte-for-byte snapshots", "§6 C13, §14.5"),
  "C14": ("consumer actor: stop positions, re-iteration, nested re-iteration, abandoned first pass, other read-only calls between passes, against the first complete pass", "§6 C14, §14.6"),
  "C15": ("read-only and no-op steps interleaved in seeded histories; raw structural digest before = after, and twin replay of the mutations alone on a fresh tree", "§6 C15, §14.2"),
- "C16": ("real goroutines under the race detector with a seeded baton schedule invisible to it (assembly baton), GOMAXPROCS 1/4/16, pool-churn and shared-reader workloads; thorough: statement-level baton passing with targeted paired yields; per-goroutine sequential reference", "§4.5, §6 C16, §14.6"),
- "C17": ("long seeded workloads at bounded size with forced collections (mixed and single-kind queries, overwrites, churn, drain with fresh keys, cross-tree retention); live-heap growth against thresholds", "§6 C17, §14.2"),
- "C18": ("forced collections at seeded instants (step boundaries, inside consumer callbacks; thorough: at statement points inside operations) with freed memory clobbered (GODEBUG=clobberfree=1), checkptr=2 build, value-type matrix; deep read-back", "§6 C18, §14"),
+ "C16": ("real goroutines under the race detector with a seeded baton schedule invisible to it (assembly baton), GOMAXPROCS 1/4/16, pool-churn and shared-reader workloads; statement-level baton passing (instrumented scratch copy) with paired yields, bursts and yields at statements touching shared state; per-goroutine sequential reference", "§4.5, §6 C16, §14.6"),
+ "C17": ("long seeded workloads at bounded size with forced collections (mixed and single-kind queries, queries that find nothing, overwrites, churn, drain with fresh keys, cross-tree retention); live-heap growth against thresholds and against what the tree stores", "§6 C17, §14.2"),
+ "C18": ("forced collections at seeded instants (step boundaries, inside consumer callbacks, at statement points inside operations of an instrumented scratch copy) with freed memory clobbered (GODEBUG=clobberfree=1), checkptr=2 build, value-type matrix; deep read-back", "§6 C18, §14"),
 }
 checks = []
 for pid, (tech, ref) in props.items():
